@@ -361,7 +361,9 @@ impl PropertySet {
         for (_, value) in self.properties.iter() {
             value.write(writer.by_ref(), self.codepage)?;
         }
-        Ok(())
+        // Report (rather than silently drop) any failure to write out data
+        // that the writer has buffered.
+        writer.flush()
     }
 
     pub fn format_identifier(&self) -> &[u8; 16] {
